@@ -1,19 +1,31 @@
 """C07 - OpenMKM thermo YAML, Cantera CTI and reactor YAML files transcribe the model.
 
-Four explorations on the real writers, one reference reader (pmc/ref/omkm.py):
+Five explorations on the real writers, one reference reader (pmc/ref/omkm.py):
 
   A2  phases   explicit-state BFS over species-population histories on 2-3 coexisting phase
-               objects (constructed with / without a ``species`` argument, directly and through
-               ``organize_phases``); reference model = one Python list per phase.
+               objects (constructed with / without a ``species`` argument, with ONE list object
+               handed to two constructors, directly and through ``organize_phases``); reference
+               model = one Python list per phase; the lists and dictionaries the caller hands over
+               stay the caller's.
   B1  reactor  deviation-bounded product over the ``write_yaml`` parameters x value kinds
                (omitted, int, float, numpy.int64, numpy.float64, string with unit, lists, arrays,
-               generic dictionaries, phases given / omitted / dict, units given / None / dict).
+               generic dictionaries, phases given / omitted / dict, units given / None / dict);
+               every call repeated, the caller's containers compared with a copy taken before.
   B2  thermo   deviation-bounded product over model / request coordinates; ``write_thermo_yaml``
                and ``write_cti`` of a freshly built model are read back with the reference readers
-               and compared with a second, untouched copy of the model.
+               and compared with a second, untouched copy of the model; afterwards the written
+               model must still say what the untouched copy says.
+  C   forms    the same evaluation, deviation-bounded product over HOW the numbers, lists and
+               options are handed over: numeric typing of species / rate / interaction / BEP /
+               phase inputs (Python int, float, NumPy scalars, integer arrays), order of the
+               NASA-9 intervals, boundary values of explicit rate inputs (0, 0.0, 1, None),
+               unnamed BEPs, T / P typing, units as object / dict / None, an explicit empty list,
+               another model written first in the same process, the same model written before.
   A1  writes   all sequences of {write_cti, write_thermo_yaml, add reaction (id None), add lateral
-               interaction (name None)} up to a depth: every file well formed, ids unique and
-               stable, a model written twice gives the same file.
+               interaction (name None)} and of {write_cti, write_thermo_yaml, add a reaction with a
+               new unnamed BEP, edit the objects in place} up to a depth: every file well formed,
+               ids unique and stable, a model written twice gives the same file, a model edited
+               in place is written with its new content.
 """
 import contextlib
 import copy
@@ -34,8 +46,11 @@ RULE = ('phases: BFS over population histories, states de-duplicated on (species
         '(parameter, value kind) deviations (thorough: + triples on a sub-alphabet), non-trivial = the '
         'deviation changes the expected file; thermo/CTI: default model + all single and pair '
         '(thorough: triple) coordinate deviations, each written by both writers, non-trivial = '
-        'differs from the default in a coordinate that changes the file; writes: every operation '
-        'sequence up to the depth from three initial id assignments')
+        'differs from the default in a coordinate that changes the file; forms: base model + every single '
+        'deviation of a representation coordinate + pairs inside one family and with every request '
+        'coordinate (thorough: all pairs + triples inside two families), each written by both writers; '
+        'writes: every operation sequence up to the depth from three (alphabet 1) / two (alphabet 2) '
+        'initial id assignments')
 ASSUMPTIONS = [
     'species coefficients, site densities, rate inputs come from fixed tables (stated in bounds); '
     'polynomial coefficients are transcribed, not recomputed, so one table per class suffices',
@@ -48,7 +63,12 @@ ASSUMPTIONS = [
     'unit conversions use pMuTT\'s own tables (their accuracy is property C12)',
     'with T omitted and multi_T given, reactor.temperature may be absent or multi_T[0] (same for '
     'P / flow_rate); the statement does not decide it',
-    'BEP objects always carry a name (the name is the key under which from_string finds them)',
+    'a BEP without a name gets one from the writer (any non-empty string not used by another BEP of the '
+    'file, kept by later writes); a BEP with a name keeps it',
+    'polynomial coefficients are handed over as NumPy arrays (the documented type; float or integer dtype)',
+    'an explicitly supplied empty list of interactions may give an empty section or no section',
+    'the NASA-9 intervals of a species are written in ascending order whatever order the object holds them in '
+    '(what to_omkm_yaml does and what Cantera requires)',
 ]
 EXPLANATION = ('explicit-state exploration and deviation-bounded product enumeration executed on the real '
                'writers; every explored case is an execution of the implementation')
@@ -56,7 +76,7 @@ EXPLANATION = ('explicit-state exploration and deviation-bounded product enumera
 PLANNED_TAGS = [
     # A2
     'phase:no-species-arg', 'phase:species-arg', 'phase:organize_phases', 'op:append', 'op:extend',
-    'op:remove', 'op:pop', 'op:clear', 'op:set', 'op:set-none', 'phases:2', 'phases:3',
+    'op:remove', 'op:pop', 'op:clear', 'op:set', 'op:set-none', 'phases:2', 'phases:3', 'phase:shared-list-arg',
     # B1
     'kind:omitted', 'kind:int', 'kind:float', 'kind:np.int64', 'kind:np.float64', 'kind:str-unit',
     'kind:str', 'kind:bool', 'kind:list', 'kind:list-np', 'kind:array', 'kind:list-str', 'kind:list-mixed', 'kind:list-mixed2', 'kind:objs',
@@ -77,9 +97,12 @@ LEVEL_TEXT = ('Bounded exhaustive exploration of the real writers: BFS over phas
               'complete single+pair deviation product over write_yaml parameters x value kinds, complete '
               'single+pair (thorough: triple) deviation product over model/request coordinates for '
               'write_thermo_yaml and write_cti read back by independent YAML/ast readers and compared with '
-              'an untouched copy of the model, and all write/add histories up to the stated depth.')
-LEVEL_NOTE = ('Finite tables of species / reactions (17 species, <= 11 reactions, <= 3 interactions, <= 2 BEPs); '
-              'user ids restricted to prefix_NNNN; BEPs always named; population depth 3 (quick) / 4 (thorough).')
+              'an untouched copy of the model, a single+pair deviation product over the representation of the '
+              'inputs (numeric typing, interval order, boundary values, unnamed BEPs, argument forms, prior writes), '
+              'and all write/add/edit histories up to the stated depth.')
+LEVEL_NOTE = ('Finite tables of species / reactions (17 species, <= 12 reactions, <= 3 interactions, <= 5 BEPs); '
+              'user ids restricted to prefix_NNNN; population depth 3 (quick) / 4 (thorough); representation pairs '
+              'restricted in the quick tier to one family or a request coordinate.')
 TECHNIQUE = ('explicit-state BFS over operation histories + deviation-bounded product enumeration on the '
              'implementation, reference-reader oracle')
 
@@ -211,8 +234,9 @@ def make_species(name, cls, phase_as_name=True, phase=None, form='plain', n9='as
                     T_mid=fT(480. + 3 * k), T_high=fT(1500. + 7 * k), n_sites=ns)
     if cls == 'nasa9':
         segs = []
-        bounds = [200. + k, 480. + 3 * k, 1000. + 5 * k, 2500. + 7 * k]
-        for j in range(3):
+        n_seg = len(N9_ORDERS[n9])            # 1, 2 or 3 intervals over the same overall range
+        bounds = [200. + k, 480. + 3 * k, 1000. + 5 * k][:n_seg] + [2500. + 7 * k]
+        for j in range(n_seg):
             a = fA([11.0 * k * (j + 1), -0.31 * k, cp + 0.0625 * j, 1.1e-3 * k, -1.3e-6 * k, 1.7e-9 * k,
                     -1.9e-13 * k / (j + 1), h - 50.25 * k - j, s + 0.125 * j])
             segs.append(SingleNasa9(T_low=fT(bounds[j]), T_high=fT(bounds[j + 1]), a=a))
@@ -276,6 +300,10 @@ PHASE_SETUPS = [
     ('direct', 'shomate', [('IG', 'gas', ['H2']), ('SS', 'bulk', None), ('II', 'terrace', None)]),
     ('organize', 'nasa', [('IG', 'gas', ['H2']), ('II', 'terrace', None), ('II', 'step', None)]),
     ('direct', 'nasa9', [('II', 'terrace', ['H2']), ('II', 'step', None), ('IG', 'gas', None)]),
+    # the caller hands ONE list object to two constructors (equal init lists share the object)
+    ('direct-shared', 'nasa', [('IG', 'gas', ['H2']), ('IG', 'gas2', ['H2'])]),
+    ('direct-shared', 'shomate', [('II', 'terrace', ['RU(T)', 'NH(T)']), ('II', 'step', ['RU(T)', 'NH(T)'])]),
+    ('direct-shared', 'nasa', [('SS', 'bulk', []), ('II', 'terrace', []), ('IG', 'gas', ['N2'])]),
 ]
 
 
@@ -288,7 +316,7 @@ def _phase_kwargs(cls, name):
 
 
 C_ORG_ALONE = "organize_phases leaves the caller's dictionaries as they were"
-C_ORG_AGAIN = 'organize_phases called again with the same arguments gives the same phases'
+C_ORG_AGAIN = 'organize_phases called again with the same dictionaries (and fresh species) builds the phases again'
 
 
 def _build_phases(setup, probe=None):
@@ -296,15 +324,25 @@ def _build_phases(setup, probe=None):
     from pmutt.omkm import phase as omkm_phase
     from pmutt.io.omkm import organize_phases
     via, pcls, specs = setup['via'], setup['pool_cls'], setup['phases']
-    pool = {}
-    for n in POOL:
-        home = None
+    def make_pool():
+        out = {}
+        for n in POOL:
+            home = None
+            for cls, name, init in specs:
+                if init and n in init:
+                    home = name
+            sp = make_species(n, pcls)
+            sp.phase = home if via == 'organize' else None
+            out[n] = sp
+        return out
+
+    def in_order(pl):
+        # organize_phases keeps the order of the species list inside each phase
+        out = []
         for cls, name, init in specs:
-            if init and n in init:
-                home = name
-        sp = make_species(n, pcls)
-        sp.phase = home if via == 'organize' else None
-        pool[n] = sp
+            out += [pl[n] for n in (init or [])]
+        return out + [pl[n] for n in POOL if pl[n] not in out]
+    pool = make_pool()
     refl = [list(init) if init else [] for _, _, init in specs]
     if via == 'organize':
         data = []
@@ -312,34 +350,35 @@ def _build_phases(setup, probe=None):
             d = _phase_kwargs(cls, name)
             d['phase_type'] = PH_CLS[cls]
             data.append(d)
-        # organize_phases keeps the order of the species list inside each phase
-        order = []
-        for cls, name, init in specs:
-            order += [pool[n] for n in (init or [])]
-        order += [pool[n] for n in POOL if pool[n] not in order]
         before = copy.deepcopy(data)
-        phases = organize_phases(data, species=order)
+        phases = organize_phases(data, species=in_order(pool))
         if probe is not None:
-            # the caller's list of dictionaries is the caller's: unchanged, and usable for a second call
+            # the caller's list of dictionaries is the caller's: unchanged, and good for a second call
+            # (with a fresh set of species: the first call has bound the species to their phase objects)
             ctx, case = probe
             sig = {'part': 'phases', 'via': 'organize', 'op': 'organize_phases'}
             same = [sorted(d.items(), key=str) for d in data] == [sorted(d.items(), key=str) for d in before]
             ctx.true(C_ORG_ALONE, same, dict(sig, item="caller's dictionaries"), case,
                      [sorted(set(a) ^ set(b)) for a, b in zip(data, before)], 'unchanged')
             try:
-                again = organize_phases(data, species=order)
+                again = organize_phases(data, species=in_order(make_pool()))
                 obs = [[type(ph).__name__, ph.name, [sp.name for sp in ph.species]] for ph in again]
             except KeyError as e:
                 obs = 'KeyError %s' % e
-            ctx.equal(C_ORG_AGAIN, obs, [[type(ph).__name__, ph.name, [sp.name for sp in ph.species]] for ph in phases],
+            ctx.equal(C_ORG_AGAIN, obs, [[PH_CLS[cls], name, list(init or [])] for cls, name, init in specs],
                       dict(sig, item='second call'), case)
             ctx.evals(2)
     else:
         phases = []
-        for cls, name, init in specs:
+        shared = {}
+        for p, (cls, name, init) in enumerate(specs):
             kw = _phase_kwargs(cls, name)
             if init is not None:
-                kw['species'] = [pool[n] for n in init]
+                lst = [pool[n] for n in init]
+                if via == 'direct-shared':
+                    lst = shared.setdefault(tuple(init), lst)
+                kw['species'] = lst
+                GIVEN.append((p, lst, list(init)))
             phases.append(getattr(omkm_phase, PH_CLS[cls])(**kw))
     return phases, pool, refl
 
@@ -378,7 +417,9 @@ def _ph_apply(phases, pool, refl, op):
         ph.clear_species()
         del refl[p][:]
     elif kind == 'set':
-        ph.species = [pool[n] for n in op[2]]
+        lst = [pool[n] for n in op[2]]
+        ph.species = lst
+        GIVEN.append((p, lst, list(op[2])))
         refl[p] = list(op[2])
     elif kind == 'set_none':
         ph.species = None
@@ -401,9 +442,18 @@ def _ph_sig(setup, p, op):
             'via': setup['via'], 'op': op[0] if op else 'construct'}
 
 
+# lists the harness (as the caller) handed to a constructor or to the species setter in the current history:
+# (phase index, the list object, the names it was made with)
+GIVEN = []
+C_PH_GIVEN = 'a list handed to a phase stays as the caller made it'
+
+
 def _ph_listing(phases, refl, setup, op, ctx, case):
     """Clause on every state and transition: each phase lists exactly its own species/elements."""
     ok = True
+    for p, lst, names in GIVEN:
+        sig = dict(_ph_sig(setup, p, op), item="caller's list")
+        ok &= ctx.true(C_PH_GIVEN, [s.name for s in lst] == names, sig, case, [s.name for s in lst], names)
     for p, ph in enumerate(phases):
         sig = _ph_sig(setup, p, op)
         names = [s.name for s in ph.species]
@@ -478,6 +528,7 @@ def _ph_replay(case, ctx, check_all):
     Returns (phases, reference lists) or None when a clause failed."""
     setup, ops = case['setup'], case['ops']
     _reset_defaults()
+    del GIVEN[:]
     try:
         phases, pool, refl = _build_phases(setup, probe=(ctx, case) if (check_all or not ops) else None)
         ctx.trace()
@@ -508,6 +559,8 @@ def _run_phases(shard, ctx):
     ctx.tag('phases:%d' % len(setup['phases']))
     if setup['via'] == 'organize':
         ctx.tag('phase:organize_phases')
+    if setup['via'] == 'direct-shared':
+        ctx.tag('phase:shared-list-arg')
     for cls, name, init in setup['phases']:
         ctx.tag('phase:no-species-arg' if init is None else 'phase:species-arg')
     root = dict(kind='phases', setup=setup, ops=[])
@@ -1292,7 +1345,7 @@ def compare(ex, got, req, ctx, case, part, supplied, empty_ok=()):
                 sw = g['switch']
                 obs = [sw.get('reactions') not in (None, 'none'), sw.get('interactions') not in (None, 'none'),
                        sw.get('beps') not in (None, 'none')]
-                exp = [bool(e['rxn']) and rx_ok, bool(e['li']) and li_ok, bool(e['beps']) and bp_ok]
+                exp = [bool(e['rxn']) and rx_ok, bool(e['li']) and li_ok, bool(e['beps']) and rx_ok]
                 ok &= ctx.equal(C_PH_MEMB, obs, exp, dict(sg, field='switches'), case)
             else:
                 obs = [sorted(g['rxn_ids'] or []) if g['rxn_ids'] is not None or not e['rxn'] else 'malformed',
@@ -1301,6 +1354,8 @@ def compare(ex, got, req, ctx, case, part, supplied, empty_ok=()):
                 exp = [sorted(ids[k] for k in e['rxn']) if rx_ok else [],
                        sorted(li_ids[k] for k in e['li']) if li_ok else [],
                        sorted(bep_ids[k] for k in e['beps']) if bp_ok else []]
+                if rx_ok and not bp_ok:       # the BEP section itself is already reported
+                    obs[2] = exp[2] = 'BEP section differs'
                 ok &= ctx.equal(C_PH_MEMB, obs, exp, dict(sg, field='member ids'), case)
     return bool(ok)
 
@@ -1428,6 +1483,57 @@ def _identities(m):
     return out
 
 
+def _raw(v):
+    """A number as the object holds it: (type name, value) - a writer has no business converting it in place."""
+    if v is None or isinstance(v, (str, bool)):
+        return v
+    if isinstance(v, np.ndarray):
+        return ['ndarray', str(v.dtype), [float(x) for x in v.ravel()]]
+    if isinstance(v, (list, tuple)):
+        return [type(v).__name__, [_raw(x) for x in v]]
+    if isinstance(v, dict):
+        return {k: _raw(x) for k, x in v.items()}
+    return [type(v).__name__, float(v)]
+
+
+def raw_state(m):
+    """What the caller's objects hold, read attribute by attribute (no getter of the model is called)."""
+    st = dict(units=dict(m.units.__dict__))
+    sp = []
+    for s in m.species:
+        rec = dict(cls=type(s).__name__, name=s.name, elements=_raw(s.elements), n_sites=_raw(s.n_sites),
+                   phase=getattr(s.phase, 'name', s.phase))
+        if hasattr(s, 'nasas'):
+            rec['nasas'] = [[_raw(n.T_low), _raw(n.T_high), _raw(n.a)] for n in s.nasas]
+        elif hasattr(s, 'a_low'):
+            rec['T'] = [_raw(s.T_low), _raw(s.T_mid), _raw(s.T_high)]
+            rec['a'] = [_raw(s.a_low), _raw(s.a_high)]
+        else:
+            rec['T'] = [_raw(s.T_low), _raw(s.T_high)]
+            rec['a'] = _raw(s.a)
+        sp.append(rec)
+    st['species'] = sp
+    pos = {id(r): k for k, r in enumerate(m.reactions)}
+    bpos = {id(b): 'BEP #%d' % k for k, b in enumerate(m.beps)}      # a BEP may get its name from the writer
+    st['reactions'] = [dict(user_id=r.id, A=_raw(r.A), beta=_raw(r.beta), Ea=_raw(r.Ea), stick=_raw(r.sticking_coeff),
+                            ads=r.is_adsorption, direction=r.direction,
+                            reactants=[[s.name, _raw(n)] for s, n in zip(r.reactants, r.reactants_stoich)],
+                            products=[[s.name, _raw(n)] for s, n in zip(r.products, r.products_stoich)],
+                            ts=[bpos.get(id(s), s.name) for s in (r.transition_state or [])]) for r in m.reactions]
+    st['interactions'] = [dict(user_id=i.name, pair=[i.name_i, i.name_j], intervals=_raw(i.intervals),
+                               slopes=_raw(i.slopes)) for i in m.interactions]
+    st['beps'] = [dict(name=b.name, slope=_raw(b.slope), intercept=_raw(b.intercept), direction=b.direction,
+                       cleavage=[pos.get(id(r)) for r in b.cleavage_reactions],
+                       synthesis=[pos.get(id(r)) for r in b.synthesis_reactions]) for b in m.beps]
+    st['phases'] = [dict(cls=type(p).__name__, name=p.name, species=[s.name for s in p.species],
+                         site_density=_raw(getattr(p, 'site_density', None)), density=_raw(getattr(p, 'density', None)),
+                         initial_state=_raw(p.initial_state),
+                         reactions=[pos.get(id(r)) for r in (p.reactions or [])],
+                         interactions=[i.name_i + '/' + i.name_j for i in (getattr(p, 'interactions', None) or [])])
+                    for p in m.phases]
+    return st
+
+
 def _forget_assigned(after, before):
     """ids / names the writer assigned to objects that had none are not a change of the model."""
     for key, field in (('reactions', 'user_id'), ('interactions', 'user_id'), ('beps', 'name')):
@@ -1459,10 +1565,10 @@ def _first_difference(a, b, path=''):
     return None if a == b else '%s: %r / %r' % (path, a, b)
 
 
-def check_left_alone(m, ex, ident, req, ctx, case, part):
-    """After the write(s): the model says what its untouched twin says, the containers hold the same objects."""
-    after = _forget_assigned(expected_model(m, req), ex)
-    diff = _first_difference(after, ex)
+def check_left_alone(m, before, ident, ctx, case, part):
+    """After the write(s): the objects hold what they held (compared with the state read before), the
+    containers hold the same objects in the same order."""
+    diff = _first_difference(_forget_assigned(raw_state(m), before), before)
     ctx.evals()
     ok = ctx.true(C_ALONE, diff is None, dict(part=part, item='model'), case, diff, 'unchanged')
     now = _identities(m)
@@ -1501,7 +1607,7 @@ def _thermo_eval(case, ctx):
             m2 = build_model(cfg)
             ex = expected_model(m2, req)
             m = build_model(cfg)
-            ident = _identities(m)
+            ident, before = _identities(m), raw_state(m)
             first = None
             if cfg.get('prior') == 'same':
                 # the same objects were already written, by the other writer and by this one
@@ -1540,7 +1646,7 @@ def _thermo_eval(case, ctx):
         if got is None:
             return
         compare(ex, got, req, ctx, case, part, _supplied(m), _empty_ok(m))
-        check_left_alone(m, ex, ident, req, ctx, case, part)
+        check_left_alone(m, before, ident, ctx, case, part)
     finally:
         _reset_defaults()
 
@@ -1745,14 +1851,14 @@ def _hist_eval(case, ctx):
             for j, rec in enumerate(ex['beps']):
                 if rec['name'] is None and j in pinned_bp:
                     rec['name'] = pinned_bp[j]
-            ident = _identities(m)
+            ident, before = _identities(m), raw_state(m)
             text = write_model(m, op, req, 'str', ctx, case, part)
             got, probs = (read_thermo_yaml if op == 'yaml' else read_cti)(text)
             ok &= ctx.true(C_WF, got is not None and not probs, dict(part=part, item='file'), case, probs, [])
             if got is None:
                 return False
             ok &= compare(ex, got, req, ctx, case, part, _supplied(m))
-            ok &= check_left_alone(m, ex, ident, req, ctx, case, part)
+            ok &= check_left_alone(m, before, ident, ctx, case, part)
             if op in last_text:
                 ctx.tag('hist:same writer twice')
                 ok &= ctx.true(C_H_SAME, _strip_stamp(text) == last_text[op], dict(part=part, item='file'), case,
@@ -2035,6 +2141,20 @@ C_R_VALUE = 'reactor value and unit as supplied'
 C_R_EXTRA = 'reactor file carries nothing that was not supplied'
 
 
+C_R_ALONE = "write_yaml leaves the caller's lists, arrays and dictionaries as they were"
+C_R_AGAIN = 'write_yaml called again with the same arguments gives the same file'
+
+
+def _same_plain(a, b):
+    if isinstance(a, np.ndarray) or isinstance(b, np.ndarray):
+        return type(a) is type(b) and a.shape == b.shape and a.dtype == b.dtype and bool(np.all(a == b))
+    if isinstance(a, dict):
+        return isinstance(b, dict) and list(a) == list(b) and all(_same_plain(a[k], b[k]) for k in a)
+    if isinstance(a, (list, tuple)):
+        return type(a) is type(b) and len(a) == len(b) and all(_same_plain(x, y) for x, y in zip(a, b))
+    return type(a) is type(b) and a == b
+
+
 def _r_match(spec, v):
     """-> None when the loaded node says what the specification says, else a reason."""
     kind = spec[0]
@@ -2171,6 +2291,8 @@ def _reactor_eval(case, ctx):
             for p, v in (('T', 111), ('flow_rate', '9 cm3/s'), ('atol', 1.0e-3), ('end_time', 77), ('multi_T', [1, 2])):
                 first[p] = v
             write_yaml(**first)
+        plain = {k: copy.deepcopy(v) for k, v in kw.items() if isinstance(v, (list, dict, np.ndarray))
+                 and k not in ('phases', 'reactions_SA', 'species_SA')}
         out = tempfile.mkdtemp(prefix='c07_') if case.get('file') else None
         try:
             if out:
@@ -2180,10 +2302,19 @@ def _reactor_eval(case, ctx):
                     text = f.read()
             else:
                 text = write_yaml(**kw)
+                again = write_yaml(**kw)
+                ctx.trace()
         finally:
             if out:
                 shutil.rmtree(out, ignore_errors=True)
         ctx.trace()
+        sigc = dict(part='reactor', item="caller's containers",
+                    units='none' if sel.get('units', 'omitted') in ('none', 'omitted') else 'given')
+        changed = sorted(k for k, v in plain.items() if not _same_plain(v, kw[k]))
+        ctx.true(C_R_ALONE, not changed, sigc, case, changed, [])
+        if not out:
+            ctx.true(C_R_AGAIN, _strip_stamp(again) == _strip_stamp(text), dict(sigc, item='second call'), case,
+                     _first_diff(_strip_stamp(text), _strip_stamp(again)), 'identical text')
         probs = ref.yaml_problems(text)
         try:
             doc = ref.load_yaml(text)
